@@ -46,7 +46,10 @@ var named = []string{"L", "dep.T", "otherdep.T", "LG[int]", "dep.G[int]", "dep.G
 	"xit.Local", "sit.Item", "dep.G2[xit.Local, sit.Item]",
 	// packages whose import path CONTAINS the path of a target package followed by a dot: the target's path plus a
 	// dotted suffix (x.io/test/tgt.v2) and a path of another module that ends with it (yx.io/test/tgt)
-	"tv2.Node", "far.Far", "dep.G[tv2.Node]", "dep.G2[far.Far, tv2.Node]", "LG[far.Far]"}
+	"tv2.Node", "far.Far", "dep.G[tv2.Node]", "dep.G2[far.Far, tv2.Node]", "LG[far.Far]",
+	// a package path with a plus sign (legal in import paths, special to URL-style unescaping), alone and next to the
+	// dotted path that reflect escapes
+	"cpp.Item", "dep.G[cpp.Item]", "dep.G2[cpp.Item, yaml.Node]"}
 var mapKeys = []string{"string", "int", "L", "dep.T", "[2]int", "dep.K", "kwb.Options"}
 
 func atoms(full bool) []string {
@@ -103,7 +106,7 @@ func expressions(c *core.Ctx) []string {
 
 func baseModule(exprs []string) pipe.Tree {
 	var b strings.Builder
-	b.WriteString("package src\n\nimport (\n\t\"" + modPath + "/dep\"\n\totherdep \"" + modPath + "/other/dep\"\n\tyaml \"" + modPath + "/third/yaml.v3\"\n\tkwa \"" + modPath + "/conf/default\"\n\tkwb \"" + modPath + "/theme/default\"\n\tcjs \"" + modPath + "/codec/json\"\n\tsjs \"encoding/json\"\n\tstm \"time\"\n\txtm \"" + modPath + "/x/time\"\n\txit \"" + modPath + "/x/item\"\n\tsit \"item\"\n\ttv2 \"" + modPath + "/tgt.v2\"\n\tfar \"y" + modPath + "/tgt\"\n)\n\nvar _ dep.T\nvar _ otherdep.T\nvar _ yaml.Node\nvar _ kwa.Options\nvar _ kwb.Options\nvar _ cjs.Codec\nvar _ sjs.RawMessage\nvar _ stm.Duration\nvar _ xtm.Tick\nvar _ xit.Local\nvar _ sit.Item\nvar _ tv2.Node\nvar _ far.Far\n\ntype L struct{ X int }\n\ntype LG[X any] struct{ V X }\n\n")
+	b.WriteString("package src\n\nimport (\n\t\"" + modPath + "/dep\"\n\totherdep \"" + modPath + "/other/dep\"\n\tyaml \"" + modPath + "/third/yaml.v3\"\n\tkwa \"" + modPath + "/conf/default\"\n\tkwb \"" + modPath + "/theme/default\"\n\tcjs \"" + modPath + "/codec/json\"\n\tsjs \"encoding/json\"\n\tstm \"time\"\n\txtm \"" + modPath + "/x/time\"\n\txit \"" + modPath + "/x/item\"\n\tsit \"item\"\n\ttv2 \"" + modPath + "/tgt.v2\"\n\tfar \"y" + modPath + "/tgt\"\n\tcpp \"" + modPath + "/c++/item\"\n)\n\nvar _ dep.T\nvar _ otherdep.T\nvar _ yaml.Node\nvar _ kwa.Options\nvar _ kwb.Options\nvar _ cjs.Codec\nvar _ sjs.RawMessage\nvar _ stm.Duration\nvar _ xtm.Tick\nvar _ xit.Local\nvar _ sit.Item\nvar _ tv2.Node\nvar _ far.Far\nvar _ cpp.Item\n\ntype L struct{ X int }\n\ntype LG[X any] struct{ V X }\n\n")
 	for i, e := range exprs {
 		fmt.Fprintf(&b, "var V_%d %s\n", i, e)
 	}
@@ -112,6 +115,7 @@ func baseModule(exprs []string) pipe.Tree {
 		"_far/go.mod":        pipe.GoMod("y"+modPath+"/tgt", "1.24"),
 		"_far/far.go":        "package tgt\n\ntype Far struct{ N int }\n",
 		"tgt.v2/n.go":        "package tgt\n\ntype Node struct{ K int }\n",
+		"c++/item/i.go":      "package item\n\ntype Item struct{ P int }\n",
 		"_item/go.mod":       pipe.GoMod("item", "1.24"),
 		"_item/item.go":      "package item\n\ntype Item struct{ N int }\n",
 		"x/item/i.go":        "package item\n\ntype Local struct{ N int }\n",
@@ -438,7 +442,7 @@ func expectedPaths(e, target string) []string {
 	set := map[string]bool{}
 	// qualifiers as written in package src
 	for q, p := range map[string]string{"otherdep.": modPath + "/other/dep", "dep.": modPath + "/dep", "yaml.": modPath + "/third/yaml.v3", "kwa.": modPath + "/conf/default", "kwb.": modPath + "/theme/default",
-		"cjs.": modPath + "/codec/json", "sjs.": "encoding/json", "stm.": "time", "xtm.": modPath + "/x/time", "xit.": modPath + "/x/item", "sit.": "item", "tv2.": modPath + "/tgt.v2", "far.": "y" + modPath + "/tgt"} {
+		"cjs.": modPath + "/codec/json", "sjs.": "encoding/json", "stm.": "time", "xtm.": modPath + "/x/time", "xit.": modPath + "/x/item", "sit.": "item", "tv2.": modPath + "/tgt.v2", "far.": "y" + modPath + "/tgt", "cpp.": modPath + "/c++/item"} {
 		rest := e
 		if q == "dep." {
 			rest = strings.ReplaceAll(e, "otherdep.", "")
@@ -449,7 +453,7 @@ func expectedPaths(e, target string) []string {
 	}
 	// local types of src: L, LG[...]
 	if target != modPath+"/src" {
-		stripped := strings.NewReplacer("otherdep.", "", "dep.", "", "yaml.", "", "kwa.", "", "kwb.", "", "cjs.", "", "sjs.", "", "stm.", "", "xtm.", "", "xit.", "", "sit.", "", "tv2.", "", "far.", "").Replace(e)
+		stripped := strings.NewReplacer("otherdep.", "", "dep.", "", "yaml.", "", "kwa.", "", "kwb.", "", "cjs.", "", "sjs.", "", "stm.", "", "xtm.", "", "xit.", "", "sit.", "", "tv2.", "", "far.", "", "cpp.", "").Replace(e)
 		for _, tok := range strings.FieldsFunc(stripped, func(r rune) bool {
 			return !(r == '_' || r >= 'A' && r <= 'Z' || r >= 'a' && r <= 'z' || r >= '0' && r <= '9')
 		}) {
@@ -475,7 +479,7 @@ func classify(expr, text string) string {
 // reflect.TypeOf of every expression.
 func renderReflect(dir string, exprs []string, ti int) (*rendering, error) {
 	var b strings.Builder
-	b.WriteString("package main\n\nimport (\n\t\"bytes\"\n\t\"encoding/json\"\n\t\"fmt\"\n\t\"os\"\n\t\"reflect\"\n\n\t\"github.com/octohelm/gengo/pkg/gengo\"\n\t\"github.com/octohelm/gengo/pkg/gengo/snippet\"\n\t\"github.com/octohelm/gengo/pkg/namer\"\n\tgengotypes \"github.com/octohelm/gengo/pkg/types\"\n\t. \"" + modPath + "/src\"\n\t\"" + modPath + "/dep\"\n\totherdep \"" + modPath + "/other/dep\"\n\tyaml \"" + modPath + "/third/yaml.v3\"\n\tkwa \"" + modPath + "/conf/default\"\n\tkwb \"" + modPath + "/theme/default\"\n\tcjs \"" + modPath + "/codec/json\"\n\tsjs \"encoding/json\"\n\tstm \"time\"\n\txtm \"" + modPath + "/x/time\"\n\txit \"" + modPath + "/x/item\"\n\tsit \"item\"\n\ttv2 \"" + modPath + "/tgt.v2\"\n\tfar \"y" + modPath + "/tgt\"\n)\n\nvar _ dep.T\nvar _ otherdep.T\nvar _ yaml.Node\nvar _ kwa.Options\nvar _ kwb.Options\nvar _ cjs.Codec\nvar _ sjs.RawMessage\nvar _ stm.Duration\nvar _ xtm.Tick\nvar _ xit.Local\nvar _ sit.Item\nvar _ tv2.Node\nvar _ far.Far\nvar _ L\n\n")
+	b.WriteString("package main\n\nimport (\n\t\"bytes\"\n\t\"encoding/json\"\n\t\"fmt\"\n\t\"os\"\n\t\"reflect\"\n\n\t\"github.com/octohelm/gengo/pkg/gengo\"\n\t\"github.com/octohelm/gengo/pkg/gengo/snippet\"\n\t\"github.com/octohelm/gengo/pkg/namer\"\n\tgengotypes \"github.com/octohelm/gengo/pkg/types\"\n\t. \"" + modPath + "/src\"\n\t\"" + modPath + "/dep\"\n\totherdep \"" + modPath + "/other/dep\"\n\tyaml \"" + modPath + "/third/yaml.v3\"\n\tkwa \"" + modPath + "/conf/default\"\n\tkwb \"" + modPath + "/theme/default\"\n\tcjs \"" + modPath + "/codec/json\"\n\tsjs \"encoding/json\"\n\tstm \"time\"\n\txtm \"" + modPath + "/x/time\"\n\txit \"" + modPath + "/x/item\"\n\tsit \"item\"\n\ttv2 \"" + modPath + "/tgt.v2\"\n\tfar \"y" + modPath + "/tgt\"\n\tcpp \"" + modPath + "/c++/item\"\n)\n\nvar _ dep.T\nvar _ otherdep.T\nvar _ yaml.Node\nvar _ kwa.Options\nvar _ kwb.Options\nvar _ cjs.Codec\nvar _ sjs.RawMessage\nvar _ stm.Duration\nvar _ xtm.Tick\nvar _ xit.Local\nvar _ sit.Item\nvar _ tv2.Node\nvar _ far.Far\nvar _ cpp.Item\nvar _ L\n\n")
 	b.WriteString("var types = []reflect.Type{\n")
 	for _, e := range exprs {
 		fmt.Fprintf(&b, "\treflect.TypeOf((*%s)(nil)).Elem(),\n", e)
